@@ -65,6 +65,7 @@ def extraction(b, opt=True):
             ["c", "to_cnf", "$b"], ["rc", "mk_cnf", nv, "$c"], ["ec", "eq", "$rc", "$b"]]
     if opt:
         prog += [["o", "to_opt_dnf", "$b"], ["ro", "mk_dnf", nv, "$o"], ["eo", "eq", "$ro", "$b"]]
+        prog += [["oi", "to_opt_dnf_int", "$b"]]
     return prog
 
 
@@ -223,6 +224,12 @@ def judge(st, V):
         V.skipped += 1
         return
     # ---------------------------------------------------------------- extraction
+    if op == "to_opt_dnf_int":
+        # _to_optimized_dnf with an interrupt that never fails is to_optimized_dnf: same relation (no rebuild step follows;
+        # the truth-table oracle and the comparison with the model's list apply)
+        op = "to_opt_dnf"
+        if in_prog(cid):
+            cid = "-1"
     if op in ("to_dnf", "to_cnf", "to_opt_dnf"):
         b = bdd_nodes(call[1])
         nv = b[0][0]
